@@ -797,7 +797,9 @@ func recvAdversary(e *Env) {
 		if i < greeted {
 			continue
 		}
-		s.l.Send(p + "\r\n")
+		// terminators as servers and bouncers produce them: CRLF, a bare LF,
+		// and now and then an empty line of either kind in between
+		s.l.Send(p + []string{"\r\n", "\r\n", "\r\n", "\n", "\n\n", "\r\n\n", "\n\r\n", "\r\r\n"}[e.S.Choose(8)])
 		s.l.Send(fmt.Sprintf(":mark!m@h PRIVMSG me :marker %d\r\n", i))
 		if e.S.Choose(4) == 0 {
 			simrt.Sleep(0)
